@@ -5,7 +5,7 @@
 use crate::sim_args::Args;
 use serde_json::Value;
 use std::io::{BufRead, BufReader, Write};
-use std::os::unix::process::ExitStatusExt;
+use std::os::unix::process::{CommandExt, ExitStatusExt};
 use std::process::{Child, ChildStdin, Command, Stdio};
 use std::sync::mpsc::{Receiver, RecvTimeoutError, channel};
 use std::time::Duration;
@@ -30,6 +30,17 @@ impl WorkerProc {
             .stdin(Stdio::piped())
             .stdout(Stdio::piped())
             .stderr(if std::env::var_os("GRAMSIM_DEBUG").is_some() { Stdio::inherit() } else { Stdio::null() });
+        // Layout seam, in-process side: the worker's own address space is not randomised, so the
+        // addresses a launch sees are a function of what the worker ran before (and of the
+        // plan's displacement), not of the kernel. A fresh worker replaying the same launches
+        // sees the same addresses.
+        // SAFETY: personality(2) is async-signal-safe.
+        unsafe {
+            cmd.pre_exec(|| {
+                crate::sim_exec::no_aslr();
+                Ok(())
+            });
+        }
         let mut child = cmd.spawn().map_err(|e| format!("spawn worker: {e}"))?;
         let stdin = child.stdin.take();
         let stdout = child.stdout.take().ok_or("no worker stdout")?;
